@@ -227,6 +227,49 @@ def external_names(py, mod: str) -> Set[str]:
     return out
 
 
+_SCALAR_CALLS = {"int", "len", "float", "str", "find", "rfind", "index", "count", "lower", "upper", "strip", "group", "start", "end", "span",
+                 "ord", "abs", "round", "sum", "join", "format", "as_posix", "fspath"}
+_SCALAR_COLLECTION_CALLS = {"keys", "split", "splitlines", "listdir", "glob", "rglob", "iterdir", "findall", "range", "find_all_files"}
+
+
+def _scalar_expr(e: ast.AST, fn: ast.AST, depth: int = 3) -> bool:
+    """visibly a number / string / path (never an entity object)"""
+    if isinstance(e, (ast.Constant, ast.JoinedStr)):
+        return True
+    if isinstance(e, ast.Call):
+        return call_name(e).split(".")[-1] in _SCALAR_CALLS
+    if isinstance(e, ast.BinOp):
+        return _scalar_expr(e.left, fn, depth) and _scalar_expr(e.right, fn, depth)
+    if isinstance(e, ast.Name) and depth > 0:
+        vals = [v for _t, v in astq.assignments(fn, e.id) if v is not None]
+        return bool(vals) and all(_scalar_expr(v, fn, depth - 1) for v in vals)
+    if isinstance(e, ast.Attribute) and depth > 0 and isinstance(e.value, ast.Name) and e.value.id == "self":
+        vals = [v for _t, v in astq.assignments(fn, ast.unparse(e)) if v is not None]
+        return bool(vals) and all(_scalar_expr(v, fn, depth - 1) for v in vals)
+    return False
+
+
+def _scalar_collection(e: ast.AST, fn: ast.AST) -> bool:
+    """a collection whose elements are visibly numbers / strings / paths"""
+    if isinstance(e, (ast.List, ast.Tuple, ast.Set)):
+        return all(_scalar_expr(x, fn) for x in e.elts)
+    if isinstance(e, ast.Call):
+        last = call_name(e).split(".")[-1]
+        if last in _SCALAR_COLLECTION_CALLS:
+            return True
+        if last in ("list", "set", "tuple", "sorted") and len(e.args) == 1:
+            return _scalar_collection(e.args[0], fn)
+        return False
+    if isinstance(e, (ast.ListComp, ast.SetComp, ast.GeneratorExp)):
+        return _scalar_expr(e.elt, fn)
+    if isinstance(e, ast.Name):
+        vals = [v for _t, v in astq.assignments(fn, e.id) if v is not None]
+        adds = [c.args[0] for c in ast.walk(fn) if isinstance(c, ast.Call) and isinstance(c.func, ast.Attribute) and
+                c.func.attr in ("append", "add") and isinstance(c.func.value, ast.Name) and c.func.value.id == e.id and c.args]
+        return bool(vals) and all(_scalar_collection(v, fn) for v in vals) and all(_scalar_expr(a, fn) for a in adds)
+    return False
+
+
 def simple_call_graph(py) -> Dict[str, Set[str]]:
     """qualname -> set of simple callee names (over-approximate: by last name component; calls
     whose receiver chain starts at a name imported from outside the package are dropped)."""
@@ -265,6 +308,18 @@ def simple_call_graph(py) -> Dict[str, Set[str]]:
                     names.add("m:" + last)
             else:
                 names.add("m:" + last)     # method of some class
+        # ordering without a key calls the elements' rich comparison: sorted(xs), min(xs), max(xs), xs.sort() -> __lt__
+        # (not when the elements are visibly numbers or strings)
+        for c in py.walk_calls(fn):
+            n = call_name(c) or ""
+            if not (n in ("sorted", "min", "max") or (isinstance(c.func, ast.Attribute) and c.func.attr == "sort" and not c.args)):
+                continue
+            if any(k.arg == "key" for k in c.keywords):
+                continue
+            subj = list(c.args) if n in ("sorted", "min", "max") else [c.func.value]
+            if len(subj) == 1 and _scalar_collection(subj[0], fn) or len(subj) > 1 and all(_scalar_expr(a, fn) for a in subj):
+                continue
+            names.add("m:__lt__")
         # property reads that trigger code: `.html`, `.outfile`, `.ident` ... (attribute loads)
         for a in ast.walk(fn):
             if isinstance(a, ast.Attribute) and isinstance(a.ctx, ast.Load):
